@@ -21,6 +21,10 @@ import Bng.Proof.DhcpTerm
     any path, DISCOVER only  KNOWN KF-dhcp4-offer-pinned: the pool binding stays for ever (offer_only_binding_persists);
                              nothing else exists at that prefix, so nothing else can be left
     any path, nothing held   identity (second_termination_identity)
+    any termination INSIDE the unlock window of the client's own REQUEST (establishment is not atomic)
+                             KNOWN KF-dhcp4-establish-race: NAT block, QoS policy, cache mac + circuit stay for ever, the
+                             Accounting-Stop precedes the Start (KF_dhcp4_establish_race_witness, _renewal_witness);
+                             residue_free_partial: everything is proved for histories without such a race
     shutdown                 KNOWN KF-dhcp4-shutdown-residue: Server.Start only closes the socket; every live session
                              keeps all of its resources and gets no Accounting-Stop (KF_dhcp4_shutdown_witness)
 
@@ -32,7 +36,8 @@ import Bng.Proof.DhcpTerm
 
   What is NOT covered: circuit-ids shared between MACs (finding D9 of C02), Nexus/HTTP allocator and peer-pool modes,
   several pools, a RADIUS server that does not answer (C08's subject), the order of Start and Stop on the wire (both
-  are sent from goroutines of their own), an ESTABLISHMENT racing the tail of a termination of the same MAC.
+  are sent from goroutines of their own), an ESTABLISHMENT racing the TAIL of a termination of the same MAC (the
+  converse - a termination inside the establishment's unlock window - is finding KF-dhcp4-establish-race above).
 -/
 namespace Bng.Spec.C16Dhcp
 open Bng Bng.DhcpTerm AMap
@@ -254,6 +259,92 @@ theorem KF_dhcp4_shutdown_witness :
     (let s' := after true 300 [.req 1 2 (some 1), .shutdown]
      (lookup s'.leases 1).isSome ∧ 2 ∈ s'.nat ∧ 2 ∈ s'.qos ∧ 1 ∈ s'.kMac ∧ (1, 1) ∈ s'.kCid ∧ stopsOf s'.acct 1 = 0) := by
   exact ⟨fun _ => rfl, by decide⟩
+
+/-! ### known finding KF-dhcp4-establish-race: establishment is not atomic
+
+  handleRequest puts the lease into the table, drops the lease lock and only THEN writes the cache entries, installs
+  QoS and NAT and sends the Accounting-Start, never looking at the table again; server4 runs one goroutine per packet.
+  All theorems above are about histories of `Op`, in which a REQUEST is one step.  `OpX.estGap` is the REQUEST with a
+  termination inside that window (the real code is driven there through the hook c2c1600). -/
+
+/-- the split is faithful: begin + finish with nothing in between is the atomic REQUEST of the theorems, in every
+    reachable state -/
+theorem establishment_split_is_request (radius : Bool) (lt : Nat) (ops : List Op) (mac r : Nat) (cid : Option Nat) :
+    match requestBegin (after radius lt ops) mac r cid with
+    | (s1, some p) => request (after radius lt ops) mac r cid = (requestFinish s1 mac p, .ack r)
+    | (s1, none) => request (after radius lt ops) mac r cid = (after radius lt ops, .nak) ∧ s1 = after radius lt ops :=
+  request_split (inv_reachable radius lt ops) mac r cid
+
+/-- histories without a raced establishment -/
+def noRace (ops : List OpX) : Bool := ops.all fun o => match o with
+  | .op _ => true
+  | .disc _ _ => true
+  | .estGap _ _ _ _ => false
+
+/-- without a raced establishment the real server's operations (`OpX`, which consult the circuit-id index) are the
+    operations of the theorems: the index never holds anything the lease table does not -/
+theorem noRace_is_atomic (s : State) (hs : s.stale = []) (ops : List OpX) (hn : noRace ops = true) :
+    ∃ ops' : List Op, runX s ops = run s ops' := by
+  induction ops generalizing s with
+  | nil => exact ⟨[], rfl⟩
+  | cons o rest ih =>
+    have h' : noRace rest = true := by
+      cases o <;> simp_all [noRace]
+    cases o with
+    | op o =>
+      have e := (stepX_of_nil hs).1 o
+      obtain ⟨ops', he⟩ := ih (stepX s (.op o)).1 (by rw [e, step_stale]; exact hs) h'
+      refine ⟨o :: ops', ?_⟩
+      show runX (stepX s (.op o)).1 rest = run (step s o).1 ops'
+      rw [he, e]
+    | disc m cid =>
+      have e := (stepX_of_nil hs).2 m cid
+      obtain ⟨ops', he⟩ := ih (stepX s (.disc m cid)).1 (by rw [e, step_stale]; exact hs) h'
+      refine ⟨.disc m :: ops', ?_⟩
+      show runX (stepX s (.disc m cid)).1 rest = run (step s (.disc m)).1 ops'
+      rw [he, e]
+    | estGap a b c d => simp [noRace] at hn
+
+/-- what IS proved at full generality: in every history in which no REQUEST is raced by a termination (the negation
+    of the finding's clause) the state is one the theorems above speak about - so whichever termination ends a
+    session leaves nothing of it and closes its accounting session with exactly one Stop -/
+theorem residue_free_partial (radius : Bool) (lt : Nat) (ops : List OpX) (hn : noRace ops = true) (m : Nat) (l : Lease)
+    (hl : lookup (runX (init radius lt) ops).leases m = some l) (t : Term) (d : Bool)
+    (hf : t.endsFlag (runX (init radius lt) ops).now m l = some d) :
+    Ended (t.run (runX (init radius lt) ops)) m l d := by
+  obtain ⟨ops', he⟩ := noRace_is_atomic (init radius lt) rfl ops hn
+  rw [he] at hl hf ⊢
+  exact residue_free radius lt ops' m l hl t d hf
+
+/-- THE DEFECT.  A RELEASE that is handled inside the window of the client's own first REQUEST: it takes the lease,
+    finds nothing to remove yet, sends the Accounting-Stop and returns the address to the pool; the REQUEST then
+    installs the QoS policy, the NAT block and three cache entries and sends the Accounting-Start - for a lease that
+    no longer exists.  Nothing ever removes them (the address is free and will be given to somebody else), and the
+    RADIUS server is left with a session whose Stop came before its Start. -/
+theorem KF_dhcp4_establish_race_witness :
+    let s' := runX (init true 300) [.estGap 1 2 (some 1) (.rel 1)]
+    lookup s'.leases 1 = none ∧ lookup s'.pool.allocated 1 = none ∧ 2 ∈ s'.pool.avail ∧
+    2 ∈ s'.nat ∧ 2 ∈ s'.qos ∧ 1 ∈ s'.kMac ∧ (1, 1) ∈ s'.kCid ∧ (1, 1) ∈ s'.kHash ∧
+    lookup s'.acct 1 = some ⟨1, 1, 1⟩ ∧ 1 ∈ s'.early ∧ (lookup s'.stale (1, 1)).isSome := by
+  decide
+
+/-- … and the after-effect of the index entry it leaves: the client's next relayed REQUEST under that circuit-id is
+    taken for a renewal of the dead lease - it gets a lease on an address the pool has on its FREE list, no pool
+    binding, no new Accounting-Start, and its RELEASE sends a second Stop for the old session -/
+theorem KF_dhcp4_establish_race_aftereffect_witness :
+    let s' := runX (init true 300) [.estGap 1 2 (some 1) (.rel 1), .op (.req 1 2 (some 1))]
+    let s'' := runX s' [.op (.term (.rel 1))]
+    (lookup s'.leases 1).isSome ∧ lookup s'.pool.allocated 1 = none ∧ 2 ∈ s'.pool.avail ∧ s'.nextSess = 2 ∧
+    lookup s''.acct 1 = some ⟨1, 1, 2⟩ := by
+  decide
+
+/-- the same window in a RENEWAL: the DECLINE ends the session completely, the renewal then writes the cache
+    entries again - the fast path keeps answering for an address that is quarantined -/
+theorem KF_dhcp4_establish_race_renewal_witness :
+    let s' := runX (init true 300) [.op (.req 1 2 (some 1)), .op (.tick 100), .estGap 1 2 (some 2) (.dec 1 2)]
+    lookup s'.leases 1 = none ∧ 2 ∈ s'.pool.unavailable ∧ 2 ∉ s'.nat ∧ 2 ∉ s'.qos ∧
+    1 ∈ s'.kMac ∧ (1, 2) ∈ s'.kCid ∧ (1, 2) ∈ s'.kHash ∧ lookup s'.acct 1 = some ⟨1, 1, 1⟩ := by
+  decide
 
 /-! ### non-vacuity: the hypotheses are reachable -/
 
